@@ -2,12 +2,12 @@
 (***************************************************************************)
 (* Exhaustive instance for C11: every sequence of document kinds up to     *)
 (* MaxDocs, consumed by the operational models of the stream iterator      *)
-(* (ReadIter::next in src/lib.rs) and of from_multiple.  `mode` selects    *)
-(* the consumer.  The pump is abstracted to: Pull = next raw event, with   *)
+(* (ReadIter::next in src/lib.rs), of the same iterator with a budget      *)
+(* ("biter") and of from_multiple.  `mode` selects the consumer.  The pump is abstracted to: Pull = next raw event, with   *)
 (* document markers skipped by the pump itself as in live_events.rs.       *)
 (***************************************************************************)
 EXTENDS Stream, Json
-CONSTANTS MaxDocs, KindSet, SetsFinishedOnSyntax
+CONSTANTS MaxDocs, KindSet, SetsFinishedOnSyntax, PeekBreachEnds
 VARIABLES ks, phase, mode,         \* generator / which consumer
           pos, out, finished, inDoc, taken, calls
 vars == <<ks, phase, mode, pos, out, finished, inDoc, taken, calls>>
@@ -38,7 +38,14 @@ NextResult(p) ==
       e == IF q > Len(Raw) THEN [k |-> "EOF", doc |-> 0] ELSE Raw[q] IN
   CASE e.k = "NUL" -> NextResult(q + 1)
     [] e.k = "C"   -> LET kind == ks[e.doc] IN
-                      IF TypeErr(kind) \/ kind = "AN" THEN
+                      IF mode = "biter" /\ kind = "BF" THEN
+                         \* the breach is raised by the first node, i.e. inside next()'s peek: the error arm of the match.
+                         \* PeekBreachEnds = TRUE is the code before fix af67285 (that arm always set `finished`).
+                         LET sk == SkipToDS(q + 1) IN
+                         [pos |-> sk[1], item |-> "budget", finished |-> IF PeekBreachEnds THEN TRUE ELSE ~sk[2]]
+                      ELSE IF mode = "biter" /\ kind = "BI" THEN
+                         LET sk == SkipToDS(q + AbortAfter(kind)) IN [pos |-> sk[1], item |-> "budget", finished |-> ~sk[2]]
+                      ELSE IF TypeErr(kind) \/ kind = "AN" THEN
                          LET sk == SkipToDS(q + AbortAfter(kind)) IN
                          [pos |-> sk[1], item |-> (IF kind = "AN" THEN "syntax" ELSE "type"), finished |-> ~sk[2]]
                       ELSE IF SyntaxErr(kind) THEN          \* the scan error surfaces while the value is read
@@ -48,7 +55,7 @@ NextResult(p) ==
     [] OTHER       -> [pos |-> q, item |-> "", finished |-> TRUE]      \* STE / EOF: Ok(None) -> finish()
 
 IterCall ==
-  /\ phase = "run" /\ mode = "iter" /\ ~finished /\ calls <= Len(Raw) + 2
+  /\ phase = "run" /\ mode \in {"iter", "biter"} /\ ~finished /\ calls <= Len(Raw) + 2
   /\ LET r == NextResult(pos) IN
      /\ pos' = r.pos /\ finished' = r.finished
      /\ out' = IF r.item = "" THEN out ELSE Append(out, r.item)
@@ -64,7 +71,7 @@ BatchRun ==
         ELSE finished' = FALSE /\ out' = Append(out, r.item)
   /\ calls' = calls + 1 /\ UNCHANGED <<ks, phase, mode, inDoc, taken>>
 
-Init == /\ ks = <<>> /\ phase = "gen" /\ mode \in {"iter", "batch"} /\ pos = 1 /\ out = <<>> /\ finished = FALSE
+Init == /\ ks = <<>> /\ phase = "gen" /\ mode \in {"iter", "batch", "biter"} /\ pos = 1 /\ out = <<>> /\ finished = FALSE
         /\ inDoc = 0 /\ taken = 0 /\ calls = 0
 Next == (\E k \in KindSet : GenAdd(k)) \/ GenDone \/ IterCall \/ BatchRun
 Spec == Init /\ [][Next]_vars
@@ -73,9 +80,10 @@ FairSpec == Spec /\ WF_vars(IterCall) /\ WF_vars(BatchRun)
 InvIter == (phase = "run" /\ mode = "iter" /\ finished) => IterAdmissible(out, ks)
 InvIterExact == (phase = "run" /\ mode = "iter" /\ finished /\ \A j \in 1..Len(ks) : ~UnknownAlias(ks[j])) => out = Iter(ks)
 InvIterPrefix == (phase = "run" /\ mode = "iter" /\ \A j \in 1..Len(ks) : ks[j] # "A") => IsPrefix(out, Iter(ks))
+InvIterBudget == (phase = "run" /\ mode = "biter" /\ finished) => IterAdmissibleB(out, ks)
 InvBatch == (phase = "run" /\ mode = "batch" /\ finished) => out = Batch(ks)
 (* the iterator ends: at most one call per document plus the final None *)
-InvTerminates == (phase = "run" /\ mode = "iter") => calls <= Len(ks) + 1
+InvTerminates == (phase = "run" /\ mode \in {"iter", "biter"}) => calls <= Len(ks) + 1
 Terminates == (phase = "run") ~> finished
 EmitCase == (phase = "run" /\ mode = "iter" /\ finished) => PrintT(<<"CASE", ToJson([kinds |-> ks])>>)
 =============================================================================
